@@ -183,13 +183,14 @@ func c02(p *Prog, r *Report) {
 			continue
 		}
 		s := p.NewSym(fn)
-		sites := sitesIn(fn, func(n string) bool { return strings.HasSuffix(n, "zk/dleq.Proof).UnmarshalBinary") })
-		if len(sites) == 0 {
+		dsites := p.deepSites(s, func(n string) bool { return strings.HasSuffix(n, "zk/dleq.Proof).UnmarshalBinary") })
+		if len(dsites) == 0 {
 			r.Fail(R7, shortName(fn)+": proof decoding site", p.Pos(fn.Pos()), "no call of (*dleq.Proof).UnmarshalBinary found: the rule no longer sees how the proof is decoded")
 			continue
 		}
-		for _, site := range sites {
-			ct := s.callTerm(site)
+		for _, ds := range dsites {
+			site := ds.Site
+			ct := ds.S.callTerm(site)
 			gt := arg(ct, 1).String()
 			key := shortName(fn) + ": proof decoded canonically"
 			if !strings.HasPrefix(gt, "load(global:") {
